@@ -37,6 +37,7 @@ def run(ctx) -> None:
     r9_in_list(ctx)
     r10_tokens(ctx)
     r11_linking(ctx)
+    r13_parse_when_converted(ctx)
     # the condition tree that is converted belongs to this rule alone (shared with C02.R5/C15.R2)
     r.rule("C01.R12", "the cached condition parse is deep-copied before postprocessing writes this rule's detections into it")
     before = len(r.obligations)
@@ -233,7 +234,24 @@ def r3_implicit_operators(ctx) -> None:
             if vcls in special:
                 r.ok("C01.R3", q, f"{call_name(c)}(...) for {vcls}: special-cased in compare_precedence", loc)
             elif self_groups:
-                r.ok("C01.R3", q, f"{call_name(c)}(...) for {vcls}: handler groups its own result by the enclosing operator's precedence", loc)
+                # the only admissible reasons not to group: a single alternative, the in-expression decision actually taken
+                # for the synthesised operator, an enclosing operator that does not bind tighter, no group template
+                syn = next((unparse(a.targets[0]) for a in walk_no_nested(f.node) if isinstance(a, ast.Assign) and a.value is c), None)
+                grp = [a for a in walk_no_nested(f.node) if isinstance(a, ast.Assign) and isinstance(a.value, ast.Call) and call_name(a.value) == "self.group_expression.format"]
+                odd = []
+                for gst in grp:
+                    for gtxt, pol in atomic_guards(guards_at(prog, f, gst)):
+                        gt = gtxt.replace(" ", "")
+                        allowed = (gt.startswith("isinstance(") or gt.startswith("isinstance(converted,str)") or gt.startswith("len(expanded)>") or "parent_chain" in gt or gt.startswith("len(enclosing)")
+                                   or "self.precedence" in gt or gt.startswith("enclosing[0]in") or gt == "self.group_expressionisnotNone" or gt == "self.cidr_expressionisnotNone"
+                                   or (syn is not None and gt == f"self.decide_convert_condition_as_in_expression({syn},state)" and pol is False))
+                        if not allowed:
+                            odd.append((gtxt, pol))
+                if odd:
+                    r.violation("C01.R3", q, f"grouping of the synthesised {call_name(c)[9:]} depends on {odd[0][0]}",
+                                f"the handler skips grouping under {odd}: only the decision actually taken for the synthesised condition (decide_convert_condition_as_in_expression({syn}, state)) tells whether it became one atomic in-expression — a configuration flag alone does not (wildcard patterns are not folded when in_expressions_allow_wildcards is off), so the alternatives are emitted ungrouped under AND/NOT", loc)
+                else:
+                    r.ok("C01.R3", q, f"{call_name(c)}(...) for {vcls}: handler groups its own result by the enclosing operator's precedence", loc)
             else:
                 r.violation("C01.R3", q, short(prog.enclosing_stmt(c), 120),
                             f"this handler turns a single value ({vcls}) into an {call_name(c)[9:]} of several conditions, but neither compare_precedence nor the handler accounts for it: under an enclosing AND/NOT the alternatives are emitted without grouping", loc)
@@ -692,3 +710,24 @@ def r11_linking(ctx) -> None:
     else:
         r.violation("C01.R11", am.qual, "value_linking = ConditionAND", "'all' modifier does not switch value linking to AND", am.loc)
     r.floor("C01.R11", 9)
+
+
+def r13_parse_when_converted(ctx) -> None:
+    r, prog = ctx.r, ctx.prog
+    r.rule("C01.R13", "a condition is parsed in the loop iteration that converts it: `.parsed` post-processes the detections shared by all conditions of a rule and re-parents them, so every parent-chain dependent decision (grouping of an expanded value, negated templates) is only right for the condition parsed last — the read of `.parsed` is the argument of convert_condition inside the loop over the conditions, never collected beforehand")
+    f = prog.func("sigma.conversion.base.Backend.convert_rule")
+    reads = [n for n in walk_no_nested(f.node) if isinstance(n, ast.Attribute) and n.attr == "parsed" and isinstance(n.ctx, ast.Load)
+             and any(t.endswith("SigmaCondition") for t in ctx.types.class_names(f.module, n.value))]
+    if not reads:
+        raise AnalysisError(f"{f.qual}: no read of SigmaCondition.parsed found")
+    for n in reads:
+        loc = f"{f.module.relpath}:{n.lineno}"
+        p = prog.parent(n)
+        direct = isinstance(p, ast.Call) and call_name(p) == "self.convert_condition" and p.args and p.args[0] is n
+        in_loop = any(isinstance(a, ast.For) and "parsed_condition" in unparse(a.iter) for a in prog.ancestors(n))
+        in_comp = any(isinstance(a, (ast.ListComp, ast.GeneratorExp, ast.SetComp, ast.DictComp)) for a in prog.ancestors(n))
+        if direct and in_loop and not in_comp:
+            r.ok("C01.R13", f.qual, "convert_condition(cond.parsed, state) inside the loop over the rule's conditions", loc)
+        else:
+            r.violation("C01.R13", f.qual, short(prog.enclosing_stmt(n), 120), "conditions are parsed ahead of their conversion: parsing a later condition re-parents the detection objects an earlier condition's tree refers to, so for a rule with several conditions that share a detection the earlier queries are rendered with the wrong parent chain (lost grouping of an expanded CIDR value, positive instead of negated template)", loc)
+    r.floor("C01.R13", 1)
